@@ -57,9 +57,9 @@ CLAIMS = {
  'C12': dict(tech="TLA+ spec Stages.tla (disjoint union + parent rows), invariant Compositional checked by TLC; multi-stage scenarios (direct and cloned stages) replayed into rockit",
              text="TLC checks on every scenario that each stage's prediction inside the multi-stage problem equals its stand-alone prediction and the objective is the sum; the real multi-stage NLP (1..3 stages of different models/methods/grids/N, free/fixed horizons, integrals with time, coupling patterns chain/time, stages declared directly or cloned from a template with overridden t0/T) is compared per stage (rows recognised by the ingredients they touch), parent rows, no row coupling stages except declared parent constraints, objective sum, T>=0 per stage, template and declared lists untouched by transcription, and a set_value/edit history on a stage-level parameter",
              ref="DESIGN.md section 4 C12"),
- 'C13': dict(tech="TLC model checking of Lifecycle.tla (cache-protocol invariants and action properties) + TLC-generated histories replayed into rockit with per-step state comparison",
-             text="Lifecycle.tla models decl/live/tflag over 14 operations; TLC checks CacheCurrent, NeverRaises, QueriesIdempotent, DeclUntouched, SetValueLocal on all reachable states; every generated history is executed on the real object: outcome, is_transcribed, declared lists after each call, and at every transcribing call the live NLP (rows by call site, objective, parameters, start, grid, solver in effect) against a freshly written OCP",
-             ref="DESIGN.md section 4 C13"),
+ 'C13': dict(tech="TLC model checking of Lifecycle.tla (cache-protocol invariants and action properties) + TLC-generated histories replayed into rockit with per-step state comparison + traces recorded from the real object (random drivers, the repository's own tests and examples) validated by TLC against Lifecycle.tla / Cache.tla",
+             text="Lifecycle.tla models decl/live/tflag over 14 operations; TLC checks CacheCurrent, NeverRaises, QueriesIdempotent, DeclUntouched, SetValueLocal on all reachable states; every generated history is executed on the real object: outcome, is_transcribed, declared lists after each call, and at every transcribing call the live NLP (rows by call site, objective, parameters, start, grid, solver in effect) against a freshly written OCP; direction B: 240/2000 recorded traces of an independent driver validated against Lifecycle.tla, and the generic cache protocol Cache.tla (operation classes, transcription counts, declared lists) validated on 160/1500 traces of a driver over the whole public API and, thorough tier, on the repository's test-suite and examples run under the recorder (DESIGN 10.7)",
+             ref="DESIGN.md section 4 C13, 10.7"),
  'C17': dict(tech="TLA+ spec BSplines.tla (Cox-de Boor in exact rationals) with spline laws checked by TLC; predictions replayed against the helper functions and grid='bspline' signals",
              text="TLC checks partition of unity, non-negativity, linear precision at the Greville points and unit derivative coefficients of the identity spline for orders 0..4, N<=5/8, uniform/geometric/irregular breakpoints, 0..2/4 sub-samples; eval_on_knots (edges, sub-samples, sub-grid), spline values, bspline_derivative and get_greville_points are compared exactly; variable(grid='bspline') under MultipleShooting/DirectCollocation: samples on the control grid and at every refinement equal the Cox-de Boor evaluation of the coefficients, der() is the analytic derivative in physical time, and a grid='bspline' parameter in the ODE reaches the right interval (explicit-Euler gap rows); SplineMethod on integrator chains of length 2..4: every chain member's samples on the control and refined grids equal the derivative splines of the coefficient variables (chain dynamics hold identically), coefficients sit at the Greville times, the path constraint is imposed at every (refined) grid point and boundary constraints once; on three chain problems SplineMethod and MultipleShooting reach the same optimum (solver relation, 1e-5)",
              ref="DESIGN.md section 4 C17"),
